@@ -164,8 +164,35 @@ def sweep(names, props):
     return results
 
 
+def table():
+    """markdown table of seeded/RESULTS.json for DESIGN.md"""
+    res = json.load(open(os.path.join(VERIF, "seeded", "RESULTS.json")))
+    lines = ["| seeded change | breaks | what it does (needs to manifest: see seeded/<name>/MUTANT.md) | quick checks that report a VIOLATION | first signature reported by the target check |",
+             "|---|---|---|---|---|"]
+    for name in sorted(res, key=lambda n: (res[n].get("breaks", ""), n)):
+        r = res[name]
+        if "checks" not in r:
+            continue
+        caught = [p for p, c in r["checks"].items() if c["rc"] == 1]
+        incon = [p for p, c in r["checks"].items() if c["rc"] == 2]
+        tgt = r["checks"].get(r["breaks"], {})
+        sig = (tgt.get("sig") or ["-"])[0][:90]
+        what = ""
+        md = os.path.join(VERIF, "seeded", name, "MUTANT.md")
+        if os.path.exists(md):
+            txt = open(md).read()
+            m = re.search(r"(?im)^(?:#+\s*)?(?:what|the change|change)[^\n]*\n+(.+?)(?:\n\n|\n#)", txt, re.S)
+            what = (m.group(1) if m else txt[:300]).replace("\n", " ").replace("|", "/")[:230]
+        mark = "" if r["breaks"] in caught else " **(target check silent)**"
+        lines.append(f"| `{name}` | {r['breaks']} | {what} | {', '.join(caught) or '-'}{mark}" + (f" (inconclusive: {', '.join(incon)})" if incon else "") + f" | `{sig}` |")
+    print("\n".join(lines))
+
+
 if __name__ == "__main__":
     cmd = sys.argv[1]
+    if cmd == "table":
+        table()
+        sys.exit(0)
     if cmd == "sweep":
         allp = ["C%02d" % i for i in range(1, 21)]
         names = sorted(n for n in os.listdir(os.path.join(VERIF, "seeded")) if os.path.isdir(os.path.join(VERIF, "seeded", n)))
